@@ -242,8 +242,12 @@ def extract(unit, ex):
             frag = R.r11_question(frag, st)
         if cfg.get("option_unfold"):
             frag = R.r10_option_unfold(frag, st)
+        if cfg.get("outline"):
+            frag = R.r14_outline(frag, st, cfg["outline"])
         if cfg.get("select"):
             frag = R.r6_select(frag, st)
+        if cfg.get("select_full"):
+            frag = R.r6b_select(frag, st, fused=cfg.get("select_fused", ()))
         frag = R.r7_env(frag, st, cfg.get("env_methods", ()), cfg.get("env_paths", ()), cfg.get("closures", ()))
         if ex.get("state"):
             frag = R.r5_state(frag, st, ex["state"])
